@@ -323,6 +323,23 @@ def apply_op(mesh, lay, op):
             mesh.dorfler_refine_isotropic(np.array(op[1], dtype=float), op[2])
         elif kind == "dorfler_aniso":
             mesh.dorfler_refine_anisotropic(np.array(op[1], dtype=float).reshape(-1, 2), op[2])
+        elif kind in ("mark_iso", "mark_aniso"):
+            # realise given marked sets through indicators: 1 on the marked contributions,
+            # 2^-40 elsewhere, theta^2 * total strictly between m - 1 and m
+            order = project(mesh, lay)
+            tiny = 2.0 ** -40
+            if kind == "mark_iso":
+                M = set(map(tuple, op[1]))
+                eta = np.array([1.0 if k in M else tiny for k in order])
+                m = len(M)
+                theta = float(np.sqrt((m - 0.5) / eta.sum()))
+                mesh.dorfler_refine_isotropic(eta, theta)
+            else:
+                Mt, Ms = set(map(tuple, op[1])), set(map(tuple, op[2]))
+                eta = np.array([[1.0 if k in Mt else tiny, 1.0 if k in Ms else tiny] for k in order])
+                m = len(Mt) + len(Ms)
+                theta = float(np.sqrt((m - 0.5) / eta.sum()))
+                mesh.dorfler_refine_anisotropic(eta, theta)
         else:
             raise ValueError(kind)
 
